@@ -14,6 +14,7 @@ from .values import (Unsupported, Infeasible, PyRaise, Return, Break, Continue, 
                      VDict, VMap, VOpt, VObj, VSym, VClass, VFunc, VBuiltin, VModule,
                      VBoundMethod, VExcInstance, VStr, NAN, INF, exc_isinstance)
 from .state import State, PathResult
+from .values import VComp
 
 
 class ClassInfo:
@@ -279,6 +280,12 @@ class Interp:
                 return NAN
         if isinstance(a, VObj) or isinstance(b, VObj):
             return self.obj_binop(st, opn, a, b, node)
+        if isinstance(a, VSym) and isinstance(b, VSym) and opn == "Add" and hasattr(a.theory, "concat") \
+                and a.theory is b.theory:
+            ka, kb = getattr(a, "kind", None), getattr(b, "kind", None)
+            if ka is not None and ka == kb:
+                return a.theory.concat(self, st, a, b)
+            raise Unsupported("concatenation of sequences of unknown kind")
         if isinstance(a, VSym) or isinstance(b, VSym):
             self.raise_("TypeError", "unsupported operand types", node)
         if isinstance(a, (str, VStr)) or isinstance(b, (str, VStr)) or \
@@ -909,10 +916,36 @@ class Interp:
         return self.call(st, fn, args, kwargs, node)
 
     def e_ListComp(self, st, fr, node):
-        return VList(self.comprehension(st, fr, node.elt, node.generators))
+        r = self.comprehension(st, fr, node.elt, node.generators)
+        if len(r) == 1 and isinstance(r[0], (VComp, VSym)) and getattr(r[0], "from_comp", False):
+            return r[0]
+        return VList(r)
 
     def e_GeneratorExp(self, st, fr, node):
-        return VList(self.comprehension(st, fr, node.elt, node.generators))
+        return self.e_ListComp(st, fr, node)
+
+    def comp_over_map(self, st, fr, elt, g, it):
+        """[elt for k, v in M.items() (if cond)] as an abstract family indexed by the keys of M.
+        The element expression is evaluated once at a generic key; it must not branch."""
+        from .shims import MapItems
+        m = it.m if isinstance(it, MapItems) else it
+        what = it.what if isinstance(it, MapItems) else "keys"
+        k = st.fresh("kc", m.ksort)
+        n_forks = st.forks
+        inner = Frame(dict(fr.locals), fr.closure, fr.modname, fr.func)
+        kv = self.map_wrap_key(m, k)
+        vv = self.map_wrap_val(m, z3.Select(m.val, k))
+        item = {"items": VTuple([kv, vv]), "keys": kv, "values": vv}[what]
+        self.assign_target(st, inner, g.target, item)
+        conds = []
+        for c in g.ifs:
+            conds.append(self.as_bool_expr(st, self.eval(st, inner, c)))
+        val = self.eval(st, inner, elt)
+        if st.forks != n_forks:
+            raise Unsupported("comprehension element branches on the generic key (line %s)" % g.iter.lineno)
+        c = VComp(m, k, val, conds)
+        c.from_comp = True
+        return c
 
     def e_DictComp(self, st, fr, node):
         out = []
@@ -930,10 +963,11 @@ class Interp:
             return [self.eval(st, fr, elt)]
         g = gens[depth]
         it = self.resolve(st, self.eval(st, fr, g.iter))
-        if isinstance(it, VSym) or isinstance(it, VMap) or \
-                (isinstance(it, VTuple) and getattr(it, "symbolic_iter", None)):
-            handler = self.loop_contracts.get(("comp", getattr(elt, "lineno", g.iter.lineno)))
-            raise Unsupported("comprehension over symbolic collection at line %s" % g.iter.lineno)
+        from .shims import MapItems
+        if isinstance(it, (MapItems, VMap)) and depth == 0 and len(gens) == 1:
+            return [self.comp_over_map(st, fr, elt, g, it)]
+        if isinstance(it, VSym) and depth == 0 and len(gens) == 1:
+            return [it.theory.comprehension(self, st, fr, elt, g, it)]
         items = self.iterate_concrete(st, it)
         out = []
         inner = Frame(dict(fr.locals), fr.closure, fr.modname, fr.func)
